@@ -25,6 +25,8 @@ func main() {
 	nLag := c05.NumFixedLag + r.Pick(4, 50)
 	// The header-reset family: c05.NumFixedReset seed-independent scenarios, then seeded ones.
 	nReset := c05.NumFixedReset + r.Pick(5, 40)
+	// The in-flight re-org family: c05.NumFixedInflight seed-independent scenarios, then seeded ones.
+	nInflight := c05.NumFixedInflight + r.Pick(3, 24)
 	minDistinct := r.Pick(60, 600)
 	resetRule := ("HEADER-RESET FAMILY (scenarios appended after the lag family: 1 seed-independent one, then seeded ones; same oracle in kind): " +
 		"the committed filter headers CHANGE underneath filters persisted earlier. Generation 1 (PersistToDisk, default or 700-byte cache): " +
@@ -49,10 +51,28 @@ func main() {
 		"(rusage of the child), must stay below 2500 MiB (a scenario needs 100-300 MiB). A call the client cannot serve must " +
 		"FAIL (statement); a client that touches gigabytes on the way is killed or thrashes wherever memory is limited, and " +
 		"then the call neither fails nor returns. The largest peak seen is reported as peak_child_rss_mib.")
+	inflightRule := ("IN-FLIGHT RE-ORG FAMILY (scenarios appended after the header-reset family: 1 seed-independent one, then seeded ones; " +
+		"same oracle): the committed chain is re-organised WHILE a GetCFilter network fetch is outstanding. Chain of 90-250 blocks, 1-3 " +
+		"peers, PersistToDisk on/off; one GetCFilter (unbatched for a block that gets replaced / reverse batch down from such a block / " +
+		"forward batch from below or inside the replaced range into it) whose getcfilters request every peer HOLDS (no answer); the " +
+		"last 1-4 blocks are replaced by a heavier branch announced by every peer; the scenario waits until BestBlock reports the new " +
+		"tip (block AND filter headers of the new branch committed, checked against ground truth; counted as reorgs_adopted_while_" +
+		"answers_held); then every held request is answered, each peer in its role {relabel = the NEW chain's genuine filters under the " +
+		"OLD blocks' hashes, position-wise; old = the old blocks' true filters under the old hashes (what was asked); new = the new " +
+		"blocks' filters under the new hashes; relabel+old / old+relabel = both entries per position}; retries are answered at once in " +
+		"the same role. ORACLE: a filter returned for old block X must verify (MakeHeaderForFilter(f, c[h-1]) == c[h]) against the " +
+		"filter headers committed for X: those read when the call began (X was on the committed chain) or, if X is still at its height " +
+		"in the block header store, those read after the call; a filter that verifies against neither is a violation. Every cache " +
+		"entry after the call and every database entry after Stop is judged as in the re-org family (current-chain keys against the " +
+		"committed headers, keys of replaced blocks must hold that block's own filter). Then the same call again when it succeeded " +
+		"(cache path) and a call for the block now committed at the target's height (must verify against the new committed headers). " +
+		"Fixed scenario 0: chain 109, forward batch of 10 from block 100 (heights 100-109), blocks 107-109 replaced by 4 new ones, two " +
+		"peers (one relabels, one answers what was asked), PersistToDisk. A scenario is non-trivial when the held answers were released " +
+		"after the re-org completed and before the call returned.")
 	// Rule REPLACES the text: one call with everything.
-	r.Rule(baseRule + ". " + resetRule + ". " + resourceRule)
+	r.Rule(baseRule + ". " + resetRule + ". " + inflightRule + ". " + resourceRule)
 	l2.RSSLimitMB = 2500
-	l2.RunScenarios(r, n+nReorg+nLag+nReset, 400*time.Second, c05.ScenariosAll(r.Quick(), n, nReorg, nLag))
+	l2.RunScenarios(r, n+nReorg+nLag+nReset+nInflight, 400*time.Second, c05.ScenariosAllInflight(r.Quick(), n, nReorg, nLag, nReset))
 	r.Set("peak_child_rss_mib", l2.PeakChildRSSMB())
 	r.Finish(minDistinct)
 }
